@@ -62,7 +62,9 @@ macro_rules! __array_from_fn_inner {
 
         let arr $(: $crate::__unparenthesize_ty!($($type)*))? =
             $crate::utils::__parse_closure_1!{
-                ($crate::__array_map) (input, |i| i,) (array_from_fn),
+                // `{i}` is a value expression: a `ref mut` closure parameter then binds a copy,
+                // not the loop counter of `__array_map`
+                ($crate::__array_map) (input, |i| {i},) (array_from_fn),
                 $($closure_unparsed)*
             };
 
